@@ -41,6 +41,56 @@ Qed.
 Lemma remove_batch_in l k b : In b (remove_batch l k) -> In b l.
 Proof. unfold remove_batch. intros H. now apply filter_In in H. Qed.
 
+(** ** Invariants *)
+Definition archived_inv (s : state) : Prop := incl (st_issued s) (st_archive s).
+Definition stored_inv (s : state) : Prop := forall b, In b (st_batches s) -> In (b_bts b) (st_issued s).
+
+Section Stored.
+  Context {Sig : Type}.
+  Variable cp : Z -> Z -> Z -> Z.
+  Variable recover : Z -> Sig -> option addr.
+  Variable g : cfg.
+
+  Notation step := (step cp recover g).
+  Notation run_from := (run_from cp recover g).
+  Notation run := (run cp recover g).
+
+  (** What a stored batch shows as BytesToSign was published -- whoever archives. *)
+  Lemma step_stored_inv s o : stored_inv s -> stored_inv (step s o).
+  Proof.
+    unfold stored_inv, Evidence.step. intros I.
+    destruct o as [key chain body|key est|key|chain tid|reg|v|chain body est sg|key]; cbn [Evidence.exec].
+    - destruct (chain_tid (st_chains s) chain) as [tid|]; [|exact I].
+      destruct (find_batch (st_batches s) key) as [b0|]; [exact I|].
+      cbn. intros b [E|Hb]; [subst; now left | right; now apply I].
+    - destruct (find_batch (st_batches s) key) as [b0|]; [|exact I].
+      destruct (c_set_once g && (0 <? b_est b0)); [exact I|].
+      destruct (chain_tid (st_chains s) (b_chain b0)) as [tid|]; [|exact I].
+      cbn. intros b [E|Hb]; [subst; now left | right; apply I; eapply remove_batch_in; eassumption].
+    - destruct (find_batch (st_batches s) key) as [b0|]; [|exact I].
+      cbn. intros b Hb. apply I. eapply remove_batch_in; eassumption.
+    - exact I.
+    - exact I.
+    - exact I.
+    - destruct (chain_tid (st_chains s) chain) as [tid|]; [|exact I].
+      destruct (c_rejects_archived g && memz _ (st_archive s)); [exact I|].
+      destruct (recover _ sg) as [a|]; [|exact I].
+      destruct (val_of_addr (st_reg s) chain a) as [v|]; [|exact I].
+      destruct (memz v (st_jailed s)); exact I.
+    - destruct (find_batch (st_batches s) key) as [b0|]; [|exact I].
+      cbn. intros b Hb. right. now apply I.
+  Qed.
+
+  Lemma run_from_stored_inv ops : forall s, stored_inv s -> stored_inv (run_from s ops).
+  Proof.
+    induction ops as [|o r IH]; intros s I; [exact I|].
+    cbn. apply IH. now apply step_stored_inv.
+  Qed.
+
+  Theorem stored_bytes_to_sign_issued ops b : In b (st_batches (run ops)) -> In (b_bts b) (st_issued (run ops)).
+  Proof. apply (run_from_stored_inv ops init). intros x []. Qed.
+End Stored.
+
 Section Proofs.
   Context {Sig : Type}.
   Variable cp : Z -> Z -> Z -> Z.
@@ -69,17 +119,18 @@ Section Proofs.
   Lemma run_snoc ops o : run (ops ++ [o]) = step (run ops) o.
   Proof. unfold Evidence.run. rewrite run_from_app. reflexivity. Qed.
 
-  (** ** Invariants *)
-  Definition archived_inv (s : state) : Prop := incl (st_issued s) (st_archive s).
-  Definition stored_inv (s : state) : Prop := forall b, In b (st_batches s) -> In (b_bts b) (st_issued s).
-
   Hypothesis Hbuild : c_build_archives g = true.
   Hypothesis Hreissue : c_reissue_archives g = true.
+  Hypothesis Hqueries : c_queries_stored g = true.
 
-  Lemma step_archived_inv s o : archived_inv s -> archived_inv (step s o).
+  (** With queries serving the stored record, a query publishes nothing new. *)
+  Lemma served_is_stored s b : served cp g s b = b_bts b.
+  Proof. unfold served. now rewrite Hqueries. Qed.
+
+  Lemma step_archived_inv s o : stored_inv s -> archived_inv s -> archived_inv (step s o).
   Proof.
-    unfold archived_inv, Evidence.step. intros I.
-    destruct o as [key chain body|key est|key|chain tid|reg|v|chain body est sg]; cbn [Evidence.exec].
+    unfold archived_inv, Evidence.step. intros St I.
+    destruct o as [key chain body|key est|key|chain tid|reg|v|chain body est sg|key]; cbn [Evidence.exec].
     - destruct (chain_tid (st_chains s) chain) as [tid|]; [|exact I].
       destruct (find_batch (st_batches s) key); [exact I|].
       cbn. rewrite Hbuild. intros x [E|Hx]; [now left | right; now apply I].
@@ -96,19 +147,34 @@ Section Proofs.
       destruct (recover _ sg) as [a|]; [|exact I].
       destruct (val_of_addr (st_reg s) chain a) as [v|]; [|exact I].
       destruct (memz v (st_jailed s)); exact I.
+    - destruct (find_batch (st_batches s) key) as [b|] eqn:F; [|exact I].
+      cbn. rewrite served_is_stored. apply find_batch_in in F. destruct F as [F _].
+      intros x [E|Hx]; [subst x; apply I; now apply St | now apply I].
   Qed.
 
-  Lemma run_from_archived_inv ops : forall s, archived_inv s -> archived_inv (run_from s ops).
+  Lemma run_from_archived_inv ops : forall s, stored_inv s -> archived_inv s -> archived_inv (run_from s ops).
   Proof.
-    induction ops as [|o r IH]; intros s I; [exact I|].
-    cbn. apply IH. now apply step_archived_inv.
+    induction ops as [|o r IH]; intros s St I; [exact I|].
+    cbn. apply IH; [now apply step_stored_inv | now apply step_archived_inv].
   Qed.
 
   Lemma init_archived_inv : archived_inv init.
   Proof. intros x []. Qed.
 
   Theorem issued_incl_archive ops c : In c (st_issued (run ops)) -> In c (st_archive (run ops)).
-  Proof. apply (run_from_archived_inv ops init init_archived_inv). Qed.
+  Proof. apply (run_from_archived_inv ops init); [intros x [] | exact init_archived_inv]. Qed.
+
+  (** Whatever a batch query hands out for signing had been published (and archived) when the
+      record was written: reading a query never asks for a signature over anything new. *)
+  Theorem query_serves_issued ops key c :
+    served_bts cp g (run ops) key = Some c -> In c (st_issued (run ops)) /\ In c (st_archive (run ops)).
+  Proof.
+    unfold served_bts. destruct (find_batch (st_batches (run ops)) key) as [b|] eqn:F; [|discriminate].
+    intros E. injection E as E. subst c. rewrite served_is_stored.
+    apply find_batch_in in F. destruct F as [F _].
+    assert (Hi : In (b_bts b) (st_issued (run ops))) by now apply (stored_bytes_to_sign_issued cp recover g).
+    split; [exact Hi | now apply issued_incl_archive].
+  Qed.
 End Proofs.
 
 Section Proofs2.
@@ -123,45 +189,12 @@ Section Proofs2.
   Notation run := (run cp recover g).
   Notation op := (op Sig).
 
-  (** Facts that do not depend on who archives. *)
-  Lemma step_stored_inv s o : stored_inv s -> stored_inv (step s o).
-  Proof.
-    unfold stored_inv, Evidence.step. intros I.
-    destruct o as [key chain body|key est|key|chain tid|reg|v|chain body est sg]; cbn [Evidence.exec].
-    - destruct (chain_tid (st_chains s) chain) as [tid|]; [|exact I].
-      destruct (find_batch (st_batches s) key) as [b0|]; [exact I|].
-      cbn. intros b [E|Hb]; [subst; now left | right; now apply I].
-    - destruct (find_batch (st_batches s) key) as [b0|]; [|exact I].
-      destruct (c_set_once g && (0 <? b_est b0)); [exact I|].
-      destruct (chain_tid (st_chains s) (b_chain b0)) as [tid|]; [|exact I].
-      cbn. intros b [E|Hb]; [subst; now left | right; apply I; eapply remove_batch_in; eassumption].
-    - destruct (find_batch (st_batches s) key) as [b0|]; [|exact I].
-      cbn. intros b Hb. apply I. eapply remove_batch_in; eassumption.
-    - exact I.
-    - exact I.
-    - exact I.
-    - destruct (chain_tid (st_chains s) chain) as [tid|]; [|exact I].
-      destruct (c_rejects_archived g && memz _ (st_archive s)); [exact I|].
-      destruct (recover _ sg) as [a|]; [|exact I].
-      destruct (val_of_addr (st_reg s) chain a) as [v|]; [|exact I].
-      destruct (memz v (st_jailed s)); exact I.
-  Qed.
-
-  Lemma run_from_stored_inv ops : forall s, stored_inv s -> stored_inv (run_from s ops).
-  Proof.
-    induction ops as [|o r IH]; intros s I; [exact I|].
-    cbn. apply IH. now apply step_stored_inv.
-  Qed.
-
-  Theorem stored_bytes_to_sign_issued ops b : In b (st_batches (run ops)) -> In (b_bts b) (st_issued (run ops)).
-  Proof. apply (run_from_stored_inv ops init). intros x []. Qed.
-
   (** The archive and the ghost only grow. *)
   Lemma step_monotone s o :
     incl (st_issued s) (st_issued (step s o)) /\ incl (st_archive s) (st_archive (step s o)).
   Proof.
     unfold Evidence.step.
-    destruct o as [key chain body|key est|key|chain tid|reg|v|chain body est sg]; cbn [Evidence.exec].
+    destruct o as [key chain body|key est|key|chain tid|reg|v|chain body est sg|key]; cbn [Evidence.exec].
     - destruct (chain_tid (st_chains s) chain) as [tid|]; [|split; apply incl_refl].
       destruct (find_batch (st_batches s) key); [split; apply incl_refl|].
       cbn. split; [apply incl_tl, incl_refl|].
@@ -180,6 +213,8 @@ Section Proofs2.
       destruct (recover _ sg) as [a|]; [|split; apply incl_refl].
       destruct (val_of_addr (st_reg s) chain a) as [v|]; [|split; apply incl_refl].
       destruct (memz v (st_jailed s)); split; apply incl_refl.
+    - destruct (find_batch (st_batches s) key); [|split; apply incl_refl].
+      cbn. split; [apply incl_tl|]; apply incl_refl.
   Qed.
 
   Theorem issued_and_archive_only_grow ops : forall s,
@@ -232,7 +267,7 @@ Section Proofs2.
     newly_jailed s (step s o) v -> exists chain body est sg, o = OEvidence chain body est sg.
   Proof.
     unfold newly_jailed, Evidence.step. intros [Hn Hj].
-    destruct o as [key chain body|key est|key|chain tid|reg|u|chain body est sg]; cbn [Evidence.exec] in Hj.
+    destruct o as [key chain body|key est|key|chain tid|reg|u|chain body est sg|key]; cbn [Evidence.exec] in Hj.
     - destruct (chain_tid (st_chains s) chain); [|contradiction].
       destruct (find_batch (st_batches s) key); contradiction.
     - destruct (find_batch (st_batches s) key) as [b0|]; [|contradiction].
@@ -243,6 +278,7 @@ Section Proofs2.
     - contradiction.
     - cbn in Hj. apply filter_In in Hj. destruct Hj. contradiction.
     - now exists chain, body, est, sg.
+    - destruct (find_batch (st_batches s) key); contradiction.
   Qed.
 
   (** Every validator jailed at the end of a history was jailed by one specific evidence message. *)
@@ -273,6 +309,7 @@ Section Honest.
   Hypothesis Hbuild : c_build_archives g = true.
   Hypothesis Hreissue : c_reissue_archives g = true.
   Hypothesis Hrejects : c_rejects_archived g = true.
+  Hypothesis Hqueries : c_queries_stored g = true.
 
   Notation step := (step cp recover g).
   Notation run := (run cp recover g).
@@ -295,7 +332,7 @@ Section Honest.
     specialize (Hna Hrejects).
     exists (cp tid body (eff_est est)). split.
     - intros E. apply Hna. rewrite <- E.
-      now apply (issued_incl_archive cp recover g Hbuild Hreissue).
+      now apply (issued_incl_archive cp recover g Hbuild Hreissue Hqueries).
     - apply val_of_addr_in in Hv. apply Hk in Hv. now subst a.
   Qed.
 
@@ -323,7 +360,7 @@ Section Honest.
     intros Hj.
     destruct (evidence_effect cp recover g _ _ _ _ _ _ Hj) as (tid & a & Ht & Hna & Hr & Hv & _).
     specialize (Hna Hrejects). exists tid, a. repeat split; try assumption.
-    - intros Hi. apply Hna. now apply (issued_incl_archive cp recover g Hbuild Hreissue).
+    - intros Hi. apply Hna. now apply (issued_incl_archive cp recover g Hbuild Hreissue Hqueries).
     - now apply val_of_addr_in.
   Qed.
 End Honest.
@@ -351,7 +388,8 @@ Definition ex_reissued : Z := ex_cp 7 42 21000.
 (** The pinned tree (UpdateBatchGasEstimate does not archive): the honest confirmation of the
     re-issued checkpoint, replayed as evidence, jails its signer although the binding is intact. *)
 Definition old_cfg : cfg :=
-  {| c_build_archives := true; c_reissue_archives := false; c_rejects_archived := true; c_set_once := true |}.
+  {| c_build_archives := true; c_reissue_archives := false; c_rejects_archived := true; c_set_once := true;
+     c_queries_stored := true; c_confirm_recomputes := true |}.
 
 Theorem honest_jailed_without_rearchive :
   let s := Evidence.run ex_cp ex_recover old_cfg ex_history in
@@ -382,3 +420,125 @@ Example forged_batch_signer_jailed_now :
   st_jailed (Evidence.step ex_cp ex_recover code_cfg s (OEvidence 1 43 21000 (ex_sign 5 (ex_cp 7 43 21000)))) = [5] /\
   snd (Evidence.exec ex_cp ex_recover code_cfg s (OEvidence 1 43 21000 (ex_sign 9 (ex_cp 7 43 21000)))) = RErrNoVal.
 Proof. cbv zeta. split; reflexivity. Qed.
+
+(** ** Queries are a channel too.  A configuration in which the batch queries recompute
+    BytesToSign for the deployment id in force at query time (instead of serving the stored,
+    archived value): after a redeploy the chain hands out, for signing, a checkpoint that never
+    entered the archive; the validator that signs what it was given is jailed by the replay. *)
+Definition recomputing_queries_cfg : cfg :=
+  {| c_build_archives := true; c_reissue_archives := true; c_rejects_archived := true; c_set_once := true;
+     c_queries_stored := false; c_confirm_recomputes := true |}.
+
+Definition ex_redeploy_history : list (op (Z * Z)) :=
+  [OSetTid 1 7; OSetReg [(1, 5, 210); (1, 6, 212)]; OBuild 1 1 42; OSetTid 1 8].
+Definition ex_served_after_redeploy : Z := ex_cp 8 42 300000.
+
+Theorem honest_jailed_with_recomputing_queries :
+  let s0 := Evidence.run ex_cp ex_recover recomputing_queries_cfg ex_redeploy_history in
+  let s := Evidence.step ex_cp ex_recover recomputing_queries_cfg s0 (OQuery 1) in
+  served_bts ex_cp recomputing_queries_cfg s0 1 = Some ex_served_after_redeploy /\
+  In ex_served_after_redeploy (st_issued s) /\ ~ In ex_served_after_redeploy (st_archive s) /\
+  confirm_checks_against ex_cp recomputing_queries_cfg s 1 = Some ex_served_after_redeploy /\
+  uses_only_key ex_addr s 1 5 5 /\
+  newly_jailed s (Evidence.step ex_cp ex_recover recomputing_queries_cfg s
+                    (OEvidence 1 42 0 (ex_sign 5 ex_served_after_redeploy))) 5 /\
+  ~ recover_binding_broken ex_recover ex_sign ex_addr.
+Proof.
+  cbv zeta. split; [reflexivity|]. split; [vm_compute; auto|]. split; [vm_compute; intuition discriminate|].
+  split; [reflexivity|]. split.
+  - intros a H. vm_compute in H. destruct H as [H|[H|[]]]; inversion H; reflexivity.
+  - split; [|exact ex_binding_intact]. split; vm_compute; intuition discriminate.
+Qed.
+
+(** The code as it is: the same history, the query serves the archived bytes; the replay of a
+    signature over them finds no validator (under the new id the subject's checkpoint is another
+    one, and the signature does not recover to a registered address under it). *)
+Example query_after_redeploy_serves_archived_now :
+  let s0 := Evidence.run ex_cp ex_recover code_cfg ex_redeploy_history in
+  let s := Evidence.step ex_cp ex_recover code_cfg s0 (OQuery 1) in
+  served_bts ex_cp code_cfg s0 1 = Some (ex_cp 7 42 300000) /\
+  In (ex_cp 7 42 300000) (st_archive s) /\
+  Evidence.exec ex_cp ex_recover code_cfg s (OEvidence 1 42 0 (ex_sign 5 (ex_cp 7 42 300000))) = (s, RErrNoVal).
+Proof. cbv zeta. split; [reflexivity|]. split; [vm_compute; auto | reflexivity]. Qed.
+
+(** ** Issued versus verified.  ConfirmBatch checks a confirmation against the checkpoint
+    RECOMPUTED for the deployment id in force when the confirmation arrives, the queries serve the
+    STORED BytesToSign.  As long as the id has not changed since the record was written the two
+    coincide; after a redeploy they differ for every outstanding batch: the published (archived)
+    checkpoint can no longer be confirmed, and the only checkpoint ConfirmBatch accepts a signature
+    over was never published nor archived -- whoever produces an acceptable confirmation is exposed
+    to the evidence handler.  (No clause of C13 is violated: the chain did not ask for that
+    signature.  It is a liveness defect and a trap for a relayer that computes the checkpoint
+    itself.) *)
+Section Verified.
+  Context {Sig : Type}.
+  Variable cp : Z -> Z -> Z -> Z.
+  Variable recover : Z -> Sig -> option addr.
+  Variable g : cfg.
+  Notation run := (Evidence.run cp recover g).
+  Notation step := (Evidence.step cp recover g).
+
+  (** every stored BytesToSign is the record's checkpoint under SOME deployment id (the one in
+      force when it was written) *)
+  Definition bts_inv (s : state) : Prop :=
+    forall b, In b (st_batches s) -> exists tid0, b_bts b = cp tid0 (b_body b) (eff_est (b_est b)).
+
+  Lemma step_bts_inv s o : bts_inv s -> bts_inv (step s o).
+  Proof.
+    unfold bts_inv, Evidence.step. intros I.
+    destruct o as [key chain body|key est|key|chain tid|reg|v|chain body est sg|key]; cbn [Evidence.exec].
+    - destruct (chain_tid (st_chains s) chain) as [tid|]; [|exact I].
+      destruct (find_batch (st_batches s) key) as [b0|]; [exact I|].
+      cbn. intros b [E|Hb]; [subst b; now exists tid | now apply I].
+    - destruct (find_batch (st_batches s) key) as [b0|]; [|exact I].
+      destruct (c_set_once g && (0 <? b_est b0)); [exact I|].
+      destruct (chain_tid (st_chains s) (b_chain b0)) as [tid|]; [|exact I].
+      cbn. intros b [E|Hb]; [subst b; now exists tid | apply I; eapply remove_batch_in; eassumption].
+    - destruct (find_batch (st_batches s) key) as [b0|]; [|exact I].
+      cbn. intros b Hb. apply I. eapply remove_batch_in; eassumption.
+    - exact I.
+    - exact I.
+    - exact I.
+    - destruct (chain_tid (st_chains s) chain) as [tid|]; [|exact I].
+      destruct (c_rejects_archived g && memz _ (st_archive s)); [exact I|].
+      destruct (recover _ sg) as [a|]; [|exact I].
+      destruct (val_of_addr (st_reg s) chain a) as [v|]; [|exact I].
+      destruct (memz v (st_jailed s)); exact I.
+    - destruct (find_batch (st_batches s) key) as [b0|]; [|exact I]. exact I.
+  Qed.
+
+  Theorem stored_bts_is_a_checkpoint ops b :
+    In b (st_batches (run ops)) -> exists tid0, b_bts b = cp tid0 (b_body b) (eff_est (b_est b)).
+  Proof.
+    unfold Evidence.run, Evidence.run_from. revert b.
+    change (bts_inv (fold_left step ops init)).
+    assert (G : forall s, bts_inv s -> bts_inv (fold_left step ops s)).
+    { induction ops as [|o r IH]; intros s I; [exact I|]. cbn. apply IH. now apply step_bts_inv. }
+    apply G. intros b [].
+  Qed.
+
+  (** Issued = verified as long as the id the record was written under is still in force. *)
+  Theorem confirm_checks_published_while_id_unchanged ops key b tid0 :
+    find_batch (st_batches (run ops)) key = Some b ->
+    b_bts b = cp tid0 (b_body b) (eff_est (b_est b)) ->
+    chain_tid (st_chains (run ops)) (b_chain b) = Some tid0 ->
+    confirm_checks_against cp g (run ops) key = Some (b_bts b).
+  Proof.
+    intros F E T. unfold confirm_checks_against, current_cp. rewrite F, T.
+    destruct (c_confirm_recomputes g); [now rewrite E | reflexivity].
+  Qed.
+End Verified.
+
+(** The current code after a redeploy: published <> verified, and the verified one is unprotected. *)
+Theorem confirm_after_redeploy_checks_unpublished :
+  let s := Evidence.run ex_cp ex_recover code_cfg ex_redeploy_history in
+  served_bts ex_cp code_cfg s 1 = Some (ex_cp 7 42 300000) /\
+  confirm_checks_against ex_cp code_cfg s 1 = Some (ex_cp 8 42 300000) /\
+  In (ex_cp 7 42 300000) (st_archive s) /\
+  ~ In (ex_cp 8 42 300000) (st_issued s) /\ ~ In (ex_cp 8 42 300000) (st_archive s) /\
+  newly_jailed s (Evidence.step ex_cp ex_recover code_cfg s (OEvidence 1 42 0 (ex_sign 5 (ex_cp 8 42 300000)))) 5.
+Proof.
+  cbv zeta. split; [reflexivity|]. split; [reflexivity|]. split; [vm_compute; auto|].
+  split; [vm_compute; intuition discriminate|]. split; [vm_compute; intuition discriminate|].
+  split; vm_compute; intuition discriminate.
+Qed.
